@@ -522,3 +522,154 @@ def run_server_real(spec):
         except BaseException as e:
             obs.exit_exc = e
     return obs
+
+
+def run_async_server(spec, *, horizon=20000.0, max_steps=800_000, probes=0, strip=True):
+    """AsyncServer twin of run_server: callers are tasks on a scheduler-aware event loop (one sim thread), workers are threads."""
+    import asyncio
+
+    from vf.core import run_sim
+
+    from mpservice import TimeoutError as MpTimeoutError
+    from mpservice.mpserver import AsyncServer, ServerBacklogFull
+
+    del LOG[:]
+    tree = spec['tree']
+    reqs = {int(k): v for k, v in spec['reqs'].items()}
+    obs = Obs()
+    obs.calls, obs.streams, obs.probe_results, obs.cycle_info = [], [], [], []
+    obs.max_backlog = 0
+    obs.overshoot = None
+    obs.enter_exc = obs.exit_exc = None
+    box = {'server': None}
+    LONG = 1000.0
+
+    def value(rid):
+        return ('V', rid, reqs[rid], ())
+
+    def on_step(sim):
+        s = box['server']
+        if s is not None:
+            b = s.backlog
+            if b > obs.max_backlog:
+                obs.max_backlog = b
+            if b > s.capacity and obs.overshoot is None:
+                obs.overshoot = (b, s.capacity, sim.steps)
+
+    async def do_call(server, step, rec_list):
+        rid = step['rid']
+        to = LONG if step['timeout'] == 'long' else step['timeout']
+        rec = {'rid': rid, 'timeout': step['timeout'], 'bp': step['bp'], 't0': time.monotonic(), 'backlog_before': server.backlog, 'cycle': 0}
+        try:
+            if step.get('cancel_after') is not None:
+                task = asyncio.ensure_future(server.call(value(rid), timeout=to, backpressure=step['bp']))
+                await asyncio.sleep(step['cancel_after'])
+                task.cancel()
+                y = await task
+            else:
+                y = await server.call(value(rid), timeout=to, backpressure=step['bp'])
+            rec['kind'], rec['payload'] = 'value', y
+        except SimAbort:
+            raise
+        except asyncio.CancelledError as e:
+            rec['kind'], rec['payload'] = 'cancelled', e
+        except ServerBacklogFull as e:
+            rec['kind'], rec['payload'] = 'backlogfull', e
+        except MpTimeoutError as e:
+            rec['kind'], rec['payload'] = 'timeout', e
+        except BaseException as e:
+            rec['kind'], rec['payload'] = 'exc', e
+        rec['t1'] = time.monotonic()
+        if isinstance(rec['payload'], BaseException):
+            rec['tb_text'] = tb_text(rec['payload'])
+            if strip:
+                strip_tb(rec['payload'])
+        rec_list.append(rec)
+
+    async def caller(server, script):
+        for step in script:
+            if step.get('think'):
+                await asyncio.sleep(step['think'])
+            await do_call(server, step, obs.calls)
+
+    async def streamer(server, sspec, srec):
+        rids = sspec['rids']
+        srec['items'] = []
+        srec['t0'] = time.monotonic()
+
+        async def source():
+            for r in rids:
+                yield value(r)
+
+        try:
+            ait = server.stream(source(), return_x=True, return_exceptions=True, timeout=LONG)
+            k = 0
+            ab = sspec.get('abandon')
+            if ab is not None and ab <= 0:
+                srec['term'] = 'abandoned'
+            else:
+                async for x, y in ait:
+                    srec['items'].append((x, y))
+                    k += 1
+                    if sspec.get('cons_delay'):
+                        await asyncio.sleep(sspec['cons_delay'])
+                    if ab is not None and k >= ab:
+                        break
+                srec['term'] = 'abandoned' if (ab is not None and k >= ab and k < len(rids)) else 'end'
+            await ait.aclose()
+        except SimAbort:
+            raise
+        except BaseException as e:
+            srec['term'] = ('exc', e)
+        srec['t1'] = time.monotonic()
+
+    def scenario():
+        sim = cur().sim
+
+        async def main():
+            server = AsyncServer(build_servlet(tree), capacity=spec['capacity'])
+            base_threads = set(t.idx for t in sim.threads if t.state != DONE)
+            try:
+                await server.__aenter__()
+            except SimAbort:
+                raise
+            except BaseException as e:
+                obs.enter_exc = e
+                return
+            box['server'] = server
+            tasks = [asyncio.ensure_future(caller(server, sc)) for sc in spec['callers']]
+            for sspec in spec.get('streams', []):
+                srec = {'spec': sspec}
+                obs.streams.append(srec)
+                tasks.append(asyncio.ensure_future(streamer(server, sspec, srec)))
+            await asyncio.gather(*tasks)
+            for k in range(probes):
+                await do_call(server, {'rid': spec['probe_rids'][k], 'timeout': 'long', 'bp': False}, obs.probe_results)
+            tmax = max([total_service_time(tree, p) for p in reqs.values()] or [0.1])
+            if spec.get('quiesce', True):
+                await asyncio.sleep(tmax * (len(reqs) + 2) + 1.0)
+            idle_backlog = server.backlog
+            gather_alive = None
+            for _ in range(5):
+                try:
+                    gather_alive = server.debug_info()['gather_thread']
+                    break
+                except RuntimeError:
+                    await asyncio.sleep(0.0001)
+            box['server'] = None
+            try:
+                await server.__aexit__(None, None, None)
+            except SimAbort:
+                raise
+            except BaseException as e:
+                obs.exit_exc = e
+            alive = [(t.idx, t.name) for t in sim.threads if t.state != DONE and t.idx not in base_threads and not t.name.startswith('asyncio_')]
+            obs.cycle_info.append({'idle_backlog': idle_backlog, 'gather_alive': gather_alive, 'alive_after_exit': alive, 'backlog_after_exit': server.backlog, 'log_range': (0, len(LOG))})
+
+        asyncio.run(main())
+        return obs
+
+    out = run_sim(scenario, spec['sched'], horizon=horizon, max_steps=max_steps, on_step=on_step)
+    obs.out = out
+    obs.log = list(LOG)
+    return obs
